@@ -181,6 +181,7 @@ PROPS = {
                          ["run_inv", "create_at_most_once", "recv_progress", "delegation_after_creation",
                           "first_message_visible", "no_second_attempt", "recv_returns", "inv_step",
                           "recv_after_creation_delegates", "noStale_run"]] +
+                        [("GcpVerif.Proofs.Tas", "GcpVerif.Tas." + n) for n in ["one_winner", "split_two_winners", "init_stream_test_and_set_atomic"]] +
                         [("GcpVerif.Proofs.Ties", "GcpVerif.Ties.cond_broadcast_handshake")],
             "leanchecker": ["GcpVerif.Proofs.Stream", "GcpVerif.Proofs.Ties"],
             "trusted_base": ST_TB, "assumptions": []},
@@ -227,7 +228,8 @@ PROPS = {
                 theorems=pool_thms(["growth_only_when_saturated", "at_max_places_anyway", "below_watermark_places"]) +
                 [("GcpVerif.Proofs.PoolSlots", "GcpVerif.Pool." + n) for n in ["size_bounded", "slots_bijective", "pool1_run", "size_bound_needs_contract"]] +
                 [("GcpVerif.Proofs.PoolInitial", "GcpVerif.Pool." + n) for n in ["initial_size", "pristine_run", "enforce_len"]] +
-                [("GcpVerif.Proofs.PoolHold", "GcpVerif.Pool.pick_eq_hold_resume")]),
+                [("GcpVerif.Proofs.PoolHold", "GcpVerif.Pool.pick_eq_hold_resume")] +
+                [("GcpVerif.Proofs.PoolLoad", "GcpVerif.Pool.growth_needs_real_load"), ("GcpVerif.Proofs.PoolLoad", "GcpVerif.Pool.streamsOf_eq_inflight")]),
     "C04": dict(pool_prop([]), theorems=[("GcpVerif.Proofs.PoolPublish", "GcpVerif.Pool." + n) for n in
                 ["counters_exact", "pool_connections_only", "tables_run", "published_matches_pool", "err_picker_iff_tf", "pub_run"]] +
                 [("GcpVerif.Proofs.PoolReady", "GcpVerif.Pool." + n) for n in
@@ -246,6 +248,7 @@ PROPS = {
     "C07": dict(pool_prop(["disabled_never_refreshes", "response_resets", "isResponse_iff", "stale_call_ignored", "refresh_trigger", "window_exponential", "window_monotone_or_saturated", "refresh_once"], ["window_exponential: k < 63 and unresponsive_detection_ms * 2^k <= MaxInt64 ms; beyond that the window saturates at MaxInt64 ns (window_monotone_or_saturated; K2 was the uint32 wrap, fixed in 6463af4)"]), theorems=pool_thms(["disabled_never_refreshes", "response_resets", "isResponse_iff", "stale_call_ignored", "refresh_trigger", "window_exponential", "window_monotone_or_saturated", "refresh_once"]) +
                 [("GcpVerif.Proofs.PoolRefresh", "GcpVerif.Pool." + n) for n in ["one_replacement_per_slot", "refr_run", "refresh_in_progress_noop", "swap_takes_over"]] +
                 [("GcpVerif.Proofs.PoolKeys", "GcpVerif.Pool.stable_swap")] +
+                [("GcpVerif.Proofs.Tas", "GcpVerif.Tas." + n) for n in ["one_winner", "split_two_winners", "refresh_test_and_set_atomic"]] +
                 [("GcpVerif.Proofs.PoolDetector", "GcpVerif.Pool." + n) for n in ["detector_quiet", "detector_done", "detector_done_unknown", "detector_scs", "refresh_det"]] +
                 [("GcpVerif.Proofs.PoolStages", "GcpVerif.Pool.lift_quiet")]),
     "C08": dict(pool_prop([]), theorems=pool_thms(["fallback_sticky", "fallback_new", "bound_ready_home", "lookup_preserves_binding"]) +
